@@ -17,6 +17,9 @@
 //	                      genuine ciphertext of the next message, and the data is
 //	                      that message.
 //	nonce                 equal plaintexts never produce equal ciphertexts.
+//	duplex                (duplex_test.go) whatever the interleaving of one end's
+//	                      write activity with its read activity: both directions
+//	                      deliver exactly the bytes written, in order.
 package c11
 
 import (
@@ -57,6 +60,15 @@ type Case struct {
 	N     int    `json:"n,omitempty"`
 	Off   int    `json:"off,omitempty"`
 	Sched int    `json:"sched,omitempty"`
+
+	// duplex family (duplex_test.go)
+	InPos   int      `json:"inpos,omitempty"`   // index of the first inbound message (direction 1-Dir)
+	Sizes   []int    `json:"sizes,omitempty"`   // outbound message sizes
+	InSizes []int    `json:"insizes,omitempty"` // inbound message sizes
+	Plans   [][]int  `json:"plans,omitempty"`   // per outbound message: write allowances of the successive flushes
+	Stops   []int    `json:"stops,omitempty"`   // inbound stream offsets at which a Read returns short
+	Ilv     string   `json:"ilv,omitempty"`     // explicit interleaving (w/r per segment); "" = every interleaving
+	Hist    []string `json:"hist,omitempty"`    // with Ilv: interleavings executed before it on the same session
 }
 
 type viol struct{ sig, what string }
@@ -66,6 +78,7 @@ type result struct {
 	nt      []string // distinct non-trivial case classes exercised
 	evals   int
 	v       *viol
+	rc      *Case // replay artefact if it differs from the enumerated case (one schedule of a schedule space)
 }
 
 type logf func(format string, a ...any)
@@ -111,6 +124,8 @@ func (c Case) run(lg logf) (res result) {
 		runTamper(c, lg, &res)
 	case "nonce":
 		runNonce(c, lg, &res)
+	case "duplex":
+		runDuplex(c, lg, &res)
 	default:
 		panic("unknown family " + c.F)
 	}
